@@ -303,3 +303,32 @@ Example hypotheses_satisfiable :
   /\ (exists exp, spec_req 4242 (Affinity (Some [4; 99])) ex_k = Some exp)
   /\ (exists exp, spec_req 4242 (Rlimit 3 (Some [7; -1])) ex_k = Some exp).
 Proof. repeat split; try (vm_compute; reflexivity); eexists; vm_compute; reflexivity. Qed.
+
+(* ------------------------------------------------ CPU numbers are not narrowed to an int *)
+Theorem cpu_numbers_not_narrowed l :
+  (forall v, In v l -> fits_long v = true /\ v <> -1 /\ (v < 0 \/ 1024 <= v)) -> c_build_set l = Val [].
+Proof.
+  intros H. unfold c_build_set.
+  replace (existsb (fun v => v =? -1) l) with false.
+  2: { symmetry. apply not_true_iff_false. intros E. apply existsb_exists in E. destruct E as [x [Hx E]].
+       apply Z.eqb_eq in E. destruct (H x Hx) as [_ [N _]]. congruence. }
+  replace (existsb (fun v => negb (fits_long v)) l) with false.
+  2: { symmetry. apply not_true_iff_false. intros E. apply existsb_exists in E. destruct E as [x [Hx E]].
+       destruct (H x Hx) as [F _]. rewrite F in E. discriminate. }
+  f_equal. apply filter_none. intros x Hx. destruct (H x Hx) as [_ [_ R]]. unfold cpu_set_bit.
+  apply andb_false_iff. destruct R; [left; apply Z.leb_gt|right; apply Z.ltb_ge]; lia.
+Qed.
+
+Theorem nonexistent_cpus_rejected k pid p cpus : kget pid k = Some p -> wf_procb k p = true -> pid <> 0 ->
+  cpus <> [] -> (forall c, In c cpus -> c < 0 \/ 1024 <= c) ->
+  run_req pid (Affinity (Some cpus)) k = (Exc ValueError, k).
+Proof.
+  intros Hg Hwf Hpid Hne Hr. pose proof (wf_procb_facts k p Hwf) as F.
+  destruct (invalid_rejected k pid p Hg Hwf Hpid) as [_ [_ [_ [_ [H _]]]]].
+  apply H; [exact Hne|]. intros c Hc Hin. pose proof (wf_elig_rng p F c Hin). specialize (Hr c Hc). lia.
+Qed.
+
+Example wide_cpu_numbers_name_nothing :
+  c_build_set [2 ^ 31; 2 ^ 32; 2 ^ 32 + 1; 2 ^ 62; 2 ^ 63 - 1; -5] = Val []
+  /\ c_build_set [2 ^ 32; 0] = Val [0].
+Proof. split; vm_compute; reflexivity. Qed.
